@@ -81,6 +81,18 @@ def _safe_build(machine, hist):
         return core.construction_viol(machine.prop, machine.name, machine.describe_hist(hist), cf)
     except lib.LibTimeout:
         return core.Viol('%s|%s|timeout' % (machine.prop, machine.name), machine.describe_hist(hist), None, 'timeout', 'history replay timed out')
+    except core.HarnessError:
+        raise
+    except Exception as ex:  # noqa
+        if not core._raised_in_library(ex):
+            raise
+        return _lib_raised(machine, hist, ex)
+
+
+def _lib_raised(machine, hist, ex):
+    # library code itself raised while a history of legal operations was replayed on valid objects
+    return core.Viol('%s|%s|library-raised-while-replaying-a-history|%s' % (machine.prop, machine.name.split('/')[0], type(ex).__name__),
+                     machine.describe_hist(hist), 'no exception', '%s: %s' % (type(ex).__name__, str(ex)[:200]), 'library code raised during history replay')
 
 
 def _inv(machine, st, hist):
@@ -88,6 +100,12 @@ def _inv(machine, st, hist):
         return machine.invariant(st, hist)
     except lib.ConstructionFailed as cf:
         return [core.construction_viol(machine.prop, machine.name, machine.describe_hist(hist), cf)]
+    except core.HarnessError:
+        raise
+    except Exception as ex:  # noqa
+        if not core._raised_in_library(ex):
+            raise
+        return [_lib_raised(machine, hist, ex)]
 
 
 _MACHINES = None
